@@ -10,6 +10,8 @@ def run(ctx: Ctx) -> None:
     T.run_param_matrix(ctx)
     T.run_composites(ctx)
     S.run_transformers(ctx)
+    T.run_generic(ctx)
+    ctx.floor("T67.generic", 12)
     ctx.floor("T12.identity", 40)
     ctx.floor("T67.views", 20)
     ctx.floor("T67.sequential", 10)
@@ -42,6 +44,10 @@ def mutants(prog):
         ("transformer: flip before map", T, "ImageTransformer.__init__", "x = target.coords(align_corners=transform.align_corners(), device=device)", "x = target.coords(align_corners=transform.align_corners(), flip=flip_coords, device=device)", "T67.warp"),
         ("transformer: no flip back", T, "ImageTransformer.forward", "if self._flip_coords:", "if False:", "T67.warp"),
         ("pointset: output grid", T, "PointSetTransformer.forward", "to_grid=self._to_grid, to_axes=self._to_axes", "to_grid=self._grid, to_axes=self._to_axes", "T67.pointset"),
+        ("generic: affine model not reversed", "deepali.spatial.generic", "GenericSpatialTransform.__init__", "for key in reversed(config.affine_model.replace(' o ', '')):", "for key in config.affine_model.replace(' o ', ''):", "T67.generic"),
+        ("generic: non-rigid position", "deepali.spatial.generic", "GenericSpatialTransform.__init__", "if affine_first(config.transform):", "if not affine_first(config.transform):", "T67.generic"),
+        ("generic: rotation order dropped", "deepali.spatial.generic", "GenericSpatialTransform.__init__", "kwargs['order'] = config.rotation_model", "pass", "T67.generic"),
+        ("generic: affine_first looks at the head", "deepali.spatial.generic", "affine_first", "return components[-1] == 'Affine'", "return components[0] == 'Affine'", "T67.generic"),
         ("pointset: input axes", T, "PointSetTransformer.forward", "points = self._grid.transform_points(points, axes=self._axes,", "points = self._grid.transform_points(points, axes=self._to_axes,", "T67.pointset"),
     ]
     for name, mod, fn, old, new, expect in specs:
